@@ -132,10 +132,17 @@ func runC11(c *Ctx) {
 	if fn := genFn(c, "C11.4", "extractExportedFields"); fn != nil {
 		ok := false
 		for _, cs := range callsIn(fn) {
-			if cs.callee == "sort.Slice" || cs.callee == "slices.SortFunc" || cs.callee == "sort.SliceStable" || cs.callee == "slices.SortStableFunc" {
+			if cs.callee == "sort.Slice" || strings.HasPrefix(cs.callee, "slices.SortFunc") || cs.callee == "sort.SliceStable" || strings.HasPrefix(cs.callee, "slices.SortStableFunc") {
 				// comparator compares the Name field
-				if mc, isC := resolve(cs.arg(1)).(*ssa.MakeClosure); isC {
-					for _, b := range mc.Fn.(*ssa.Function).Blocks {
+				var cmpFn *ssa.Function
+				switch x := resolve(cs.arg(1)).(type) {
+				case *ssa.MakeClosure:
+					cmpFn = x.Fn.(*ssa.Function)
+				case *ssa.Function:
+					cmpFn = x // a function literal that captures nothing
+				}
+				if cmpFn != nil {
+					for _, b := range cmpFn.Blocks {
 						for _, in := range b.Instrs {
 							if fa, isF := in.(*ssa.FieldAddr); isF && fieldKey(fa) == "internal/kessoku.StructFieldSpec.Name" {
 								ok = true
